@@ -1081,13 +1081,6 @@ func (in *Interp) reBacktrack(p *syntax.Prog, b []value, pc, pos int, caps []int
 // sees it); anything else ends the path as unsupported.
 func (in *Interp) reRuneMatches(inst *syntax.Inst, b []value, pos int) (bool, int) {
 	c := b[pos]
-	isCont := func(v value) (bool, bool) { // (is continuation byte, known)
-		cb, ok := v.(uint8)
-		if !ok {
-			return false, false
-		}
-		return cb >= 0x80 && cb <= 0xBF, true
-	}
 	if cb, ok := c.(uint8); ok {
 		if cb < 0x80 {
 			return inst.MatchRune(rune(cb)), 1
@@ -1097,7 +1090,10 @@ func (in *Interp) reRuneMatches(inst *syntax.Inst, b []value, pos int) (bool, in
 			x, ok := b[j].(uint8)
 			if !ok {
 				if cb >= 0xC2 {
-					abort(abUnsupported, "regexp: multi-byte rune with symbolic continuation byte")
+					if !nonASCIIUniform(inst) {
+						abort(abUnsupported, "regexp class that splits the non-ASCII range over symbolic text")
+					}
+					return inst.MatchRune(0xFFFD), in.utf8Width(b, pos)
 				}
 				break
 			}
@@ -1108,18 +1104,13 @@ func (in *Interp) reRuneMatches(inst *syntax.Inst, b []value, pos int) (bool, in
 	}
 	t := c.(*Term)
 	if !in.branch(mkBvCmp(opBvUlt, t, mkBV(8, 0x80))) {
-		// non-ASCII symbolic byte: a continuation or invalid lead byte alone is U+FFFD;
-		// a valid lead byte (0xC2..0xF4) needs its continuation bytes.
-		lead := mkAnd(mkBvCmp(opBvUle, mkBV(8, 0xC2), t), mkBvCmp(opBvUle, t, mkBV(8, 0xF4)))
-		if in.branch(lead) {
-			if pos+1 < len(b) {
-				ic, known := isCont(b[pos+1])
-				if !known || ic {
-					abort(abUnsupported, "regexp over a symbolic multi-byte rune")
-				}
-			}
+		// non-ASCII: decode the UTF-8 sequence symbolically (forking on the byte
+		// classes exactly as unicode/utf8 distinguishes them). The rune value itself is
+		// not tracked: every class of the pattern must treat all non-ASCII runes alike.
+		if !nonASCIIUniform(inst) {
+			abort(abUnsupported, "regexp class that splits the non-ASCII range over symbolic text")
 		}
-		return inst.MatchRune(0xFFFD), 1
+		return inst.MatchRune(0xFFFD), in.utf8Width(b, pos)
 	}
 	// build the class condition over ASCII
 	cond := mkBool(false)
@@ -1142,4 +1133,85 @@ func (in *Interp) reRuneMatches(inst *syntax.Inst, b []value, pos int) (bool, in
 		}
 	}
 	return in.branch(cond), 1
+}
+
+// nonASCIIUniform: the instruction matches either every rune >= 0x80 or none.
+func nonASCIIUniform(inst *syntax.Inst) bool {
+	switch inst.Op {
+	case syntax.InstRuneAny, syntax.InstRuneAnyNotNL:
+		return true
+	}
+	first := inst.MatchRune(0x80)
+	for _, r := range []rune{0xFF, 0x100, 0x7FF, 0x800, 0xFFFD, 0xFFFF, 0x10000, 0x10FFFF} {
+		if inst.MatchRune(r) != first {
+			return false
+		}
+	}
+	for i := 0; i+1 < len(inst.Rune); i += 2 {
+		lo, hi := inst.Rune[i], inst.Rune[i+1]
+		if hi >= 0x80 && !(lo <= 0x80 && hi >= 0x10FFFF) && !first {
+			return false
+		}
+		if first && lo > 0x80 && lo <= 0x10FFFF {
+			// a range starting inside the non-ASCII area: must be contiguous with another; be conservative
+			return false
+		}
+	}
+	return true
+}
+
+// utf8Width returns the number of bytes package unicode/utf8 consumes for the
+// (non-ASCII) sequence starting at b[pos]: 2..4 for a valid encoding, else 1.
+func (in *Interp) utf8Width(b []value, pos int) int {
+	inRange := func(v value, lo, hi uint8) bool {
+		switch x := v.(type) {
+		case uint8:
+			return x >= lo && x <= hi
+		case *Term:
+			return in.branch(mkAnd(mkBvCmp(opBvUle, mkBV(8, uint64(lo)), x), mkBvCmp(opBvUle, x, mkBV(8, uint64(hi)))))
+		}
+		return false
+	}
+	at := func(i int) (value, bool) {
+		if i < len(b) {
+			return b[i], true
+		}
+		return nil, false
+	}
+	cont := func(i int, lo, hi uint8) bool {
+		v, ok := at(i)
+		return ok && inRange(v, lo, hi)
+	}
+	c := b[pos]
+	switch {
+	case inRange(c, 0xC2, 0xDF):
+		if cont(pos+1, 0x80, 0xBF) {
+			return 2
+		}
+	case inRange(c, 0xE0, 0xE0):
+		if cont(pos+1, 0xA0, 0xBF) && cont(pos+2, 0x80, 0xBF) {
+			return 3
+		}
+	case inRange(c, 0xED, 0xED):
+		if cont(pos+1, 0x80, 0x9F) && cont(pos+2, 0x80, 0xBF) {
+			return 3
+		}
+	case inRange(c, 0xE1, 0xEF):
+		if cont(pos+1, 0x80, 0xBF) && cont(pos+2, 0x80, 0xBF) {
+			return 3
+		}
+	case inRange(c, 0xF0, 0xF0):
+		if cont(pos+1, 0x90, 0xBF) && cont(pos+2, 0x80, 0xBF) && cont(pos+3, 0x80, 0xBF) {
+			return 4
+		}
+	case inRange(c, 0xF4, 0xF4):
+		if cont(pos+1, 0x80, 0x8F) && cont(pos+2, 0x80, 0xBF) && cont(pos+3, 0x80, 0xBF) {
+			return 4
+		}
+	case inRange(c, 0xF1, 0xF3):
+		if cont(pos+1, 0x80, 0xBF) && cont(pos+2, 0x80, 0xBF) && cont(pos+3, 0x80, 0xBF) {
+			return 4
+		}
+	}
+	return 1
 }
